@@ -20,7 +20,11 @@ use discv5::verif::handler::{
 use discv5::verif::{packet_decode, RawPacket};
 use discv5::{ConfigBuilder, ConnectionDirection, Enr, ListenConfig, ProtocolIdentity, RequestError};
 use std::collections::{HashMap, HashSet};
-use std::net::{Ipv4Addr, SocketAddr};
+use std::net::{IpAddr, Ipv4Addr, Ipv6Addr, SocketAddr};
+use std::sync::atomic::{AtomicBool, Ordering};
+
+/// Worlds whose nodes (and the attacker) live at IPv6 addresses and listen on IPv6 only.
+static V6_WORLD: AtomicBool = AtomicBool::new(false);
 use std::sync::Arc;
 use std::time::Duration;
 use tokio::sync::{mpsc, oneshot};
@@ -212,11 +216,29 @@ fn independent_aad(bytes: &[u8], local_id: &NodeId) -> Option<Vec<u8>> {
 }
 
 fn node_addr(idx: u64) -> SocketAddr {
+    let v6 = V6_WORLD.load(Ordering::Relaxed);
+    let host = |h: u64| -> IpAddr {
+        if v6 { Ipv6Addr::new(0xfd00, 0, 0, 0, 0, 0, 0, h as u16).into() } else { Ipv4Addr::new(10, 0, 0, h as u8).into() }
+    };
     if (21..=29).contains(&idx) {
         // another port on the host of node idx-20
-        return SocketAddr::new(Ipv4Addr::new(10, 0, 0, (idx - 20) as u8).into(), 19000 + idx as u16);
+        return SocketAddr::new(host(idx - 20), 19000 + idx as u16);
     }
-    SocketAddr::new(Ipv4Addr::new(10, 0, 0, idx as u8).into(), 9000 + idx as u16)
+    SocketAddr::new(host(idx), 9000 + idx as u16)
+}
+
+/// (ip4, ip6) arguments of `make_enr` for a record advertising `a`.
+fn adv_of(a: Option<SocketAddr>) -> (Option<(Ipv4Addr, u16)>, Option<(Ipv6Addr, u16)>) {
+    match a {
+        Some(SocketAddr::V4(s)) => (Some((*s.ip(), s.port())), None),
+        Some(SocketAddr::V6(s)) => (None, Some((*s.ip(), s.port()))),
+        None => (None, None),
+    }
+}
+
+/// An older record (seq 0) of the same node advertising the same sockets.
+fn stale_of(k: &CombinedKey, e: &Enr) -> Enr {
+    make_enr(k, 0, e.udp4_socket().map(|s| (*s.ip(), s.port())), e.udp6_socket().map(|s| (*s.ip(), s.port())), 0)
 }
 
 const ED_IDENTITY: u64 = 8;
@@ -879,8 +901,12 @@ impl Runner for HandlerRunner {
                 // optional 7th token: per-node record mode, one digit per node: 0 = record advertises
                 // the node's real socket, 1 = same IP but another port, 2 = no UDP socket at all,
                 // 3 = another IP
-                let modes: Vec<u8> = t.get(6).map(|m| m.bytes().map(|b| b.wrapping_sub(b'0')).collect()).unwrap_or_default();
+                // a token `v6` anywhere behind: every node lives at an IPv6 address
+                let v6 = t.iter().skip(6).any(|x| *x == "v6");
+                let modes: Vec<u8> = t.get(6).filter(|m| m.bytes().all(|b| b.is_ascii_digit())).map(|m| m.bytes().map(|b| b.wrapping_sub(b'0')).collect()).unwrap_or_default();
                 self.reset();
+                V6_WORLD.store(v6, Ordering::Relaxed);
+                if v6 { stats.bump("h.world.v6"); }
                 let n: u64 = n.parse().unwrap_or(2);
                 self.retries = retries.parse().unwrap_or(1);
                 self.timeout_ms = timeout_ms.parse().unwrap_or(400);
@@ -892,22 +918,28 @@ impl Runner for HandlerRunner {
                 for idx in 1..=n {
                     let key = key_of_idx(idx);
                     let addr = node_addr(idx);
-                    let ip = match addr { SocketAddr::V4(a) => *a.ip(), _ => unreachable!() };
+                    let ip = addr.ip();
                     let mode = modes.get(idx as usize - 1).copied().unwrap_or(0);
-                    let adv: Option<(Ipv4Addr, u16)> = match mode {
-                        1 => Some((ip, addr.port() + 100)),
+                    let other_ip: IpAddr = if v6 { Ipv6Addr::new(0xfd00, 0, 0, 1, 0, 0, 0, idx as u16).into() } else { Ipv4Addr::new(10, 0, 1, idx as u8).into() };
+                    let adv: Option<SocketAddr> = match mode {
+                        1 => Some(SocketAddr::new(ip, addr.port() + 100)),
                         2 => None,
-                        3 => Some((Ipv4Addr::new(10, 0, 1, idx as u8), addr.port())),
-                        _ => Some((ip, addr.port())),
+                        3 => Some(SocketAddr::new(other_ip, addr.port())),
+                        _ => Some(addr),
                     };
-                    let enr = make_enr(&key, 1, adv, None, 0);
+                    let (a4, a6) = adv_of(adv);
+                    let enr = make_enr(&key, 1, a4, a6, 0);
                     self.ids.insert(enr.node_id(), idx);
                     // address registry: index == node idx
                     while self.addrs.len() <= ATTACKER as usize {
                         let k = self.addrs.len() as u64;
                         self.addrs.push(node_addr(if k == 0 { 200 } else { k }));
                     }
-                    let config = ConfigBuilder::new(ListenConfig::Ipv4 { ip, port: addr.port() })
+                    let listen = match ip {
+                        IpAddr::V4(ip) => ListenConfig::Ipv4 { ip, port: addr.port() },
+                        IpAddr::V6(ip) => ListenConfig::Ipv6 { ip, port: addr.port() },
+                    };
+                    let config = ConfigBuilder::new(listen)
                         .request_retries(self.retries as u8)
                         .request_timeout(Duration::from_millis(self.timeout_ms))
                         .session_cache_capacity(cap)
@@ -928,13 +960,14 @@ impl Runner for HandlerRunner {
                         idx, key, enr, addr, to_handler, from_handler, wire, _exit: exit,
                         wru: Vec::new(), requests: Vec::new(), c_nonce: 0, c_cd: 0, c_eph: 0, c_rid: 0,
                     });
-                    let u4 = match adv {
-                        Some((aip, aport)) => self.addr_idx(SocketAddr::new(aip.into(), aport)).split(':').nth(1).unwrap().to_string(),
+                    let un = match adv {
+                        Some(a) => self.addr_idx(a).split(':').nth(1).unwrap().to_string(),
                         None => "-".to_string(),
                     };
+                    let (u4, u6) = if v6 { ("-".to_string(), un) } else { (un, "-".to_string()) };
                     ops.push(format!(
-                        "hnew {} 1 {} {} {} {} 2 4:{} {} -",
-                        idx, self.retries, self.timeout_ms, ttl_ms, cap, idx, u4
+                        "hnew {} 1 {} {} {} {} 2 {}:{} {} {}",
+                        idx, self.retries, self.timeout_ms, ttl_ms, cap, if v6 { 6 } else { 4 }, idx, u4, u6
                     ));
                 }
                 // attacker identity (its own key and record, an address of its own)
@@ -944,12 +977,13 @@ impl Runner for HandlerRunner {
                     let k = self.addrs.len() as u64;
                     self.addrs.push(node_addr(k));
                 }
-                let aip = match aaddr { SocketAddr::V4(a) => *a.ip(), _ => unreachable!() };
-                let aenr = make_enr(&akey, 1, Some((aip, aaddr.port())), None, 0);
+                let (a4, a6) = adv_of(Some(aaddr));
+                let aenr = make_enr(&akey, 1, a4, a6, 0);
                 self.ids.insert(aenr.node_id(), ATTACKER);
                 self.attacker_key = Some(akey);
                 self.attacker_enr = Some(aenr);
-                let eenr = make_enr(&ed_key(), 1, Some((Ipv4Addr::new(10, 0, 0, ED_IDENTITY as u8), 9000 + ED_IDENTITY as u16)), None, 0);
+                let (e4, e6) = adv_of(Some(node_addr(ED_IDENTITY)));
+                let eenr = make_enr(&ed_key(), 1, e4, e6, 0);
                 self.ids.insert(eenr.node_id(), ED_IDENTITY);
                 self.ed_enr = Some(eenr);
                 self.rt = Some(rt);
@@ -1045,7 +1079,7 @@ impl HandlerRunner {
                 let yidx = self.nodes[yi].idx;
                 self.ledger.reqs.insert((xidx, rid), ReqLedger { sent_at: self.now_ms, to: yidx, ..Default::default() });
                 let _ = self.nodes[xi].to_handler.send(HandlerIn::Request(contact, Box::new(req)));
-                let na = format!("{}@4:{}", yidx, yidx);
+                let na = format!("{}@{}", yidx, self.addr_idx(yaddr));
                 let rec = if *how == "enr" { self.rec(&yenr) } else { "none".into() };
                 stats.bump("h.op.req");
                 self.finish(Some(xi), Some(format!("appreq {} {} {} {}", na, rec, rid, body)), 1, out, stats);
@@ -1066,8 +1100,7 @@ impl HandlerRunner {
                     "none" => None,
                     "stale" => self.key_for_idx(who).map(|(k, e)| {
                         // an older record of the same node (seq 0 < current seq 1)
-                        let ip4 = e.udp4_socket().map(|s| (*s.ip(), s.port()));
-                        make_enr(&k, 0, ip4, None, 0)
+                        stale_of(&k, &e)
                     }),
                     _ => self.key_for_idx(who).map(|(_, e)| e),
                 };
@@ -1395,7 +1428,7 @@ impl HandlerRunner {
                     "ed" => self.ed_enr.clone(),
                     s if s.starts_with("of:") => self.key_for_idx(s[3..].parse().unwrap_or(0)).map(|x| x.1),
                     s if s.starts_with("stale:") => self.key_for_idx(s[6..].parse().unwrap_or(0)).map(|(k, e)| {
-                        make_enr(&k, 0, e.udp4_socket().map(|s| (*s.ip(), s.port())), None, 0)
+                        stale_of(&k, &e)
                     }),
                     _ => None,
                 };
@@ -1437,9 +1470,9 @@ pub fn gen_case(rng: &mut Rng, tier: &str, profile: &str, stats: &mut Stats) -> 
         ops.push(format!("hworld {} {} {} {} 300", n, retries, timeout, rng.range(1, 3)));
     } else if profile == "C12" || rng.chance(1, 4) {
         let modes: String = (0..n).map(|_| match rng.below(6) { 0 => '1', 1 => '2', 2 => '3', _ => '0' }).collect();
-        ops.push(format!("hworld {} {} {} 1000 86400000 {}", n, retries, timeout, modes));
+        ops.push(format!("hworld {} {} {} 1000 86400000 {}{}", n, retries, timeout, modes, if rng.chance(1, 4) { " v6" } else { "" }));
     } else {
-        ops.push(format!("hworld {} {} {} 1000 86400000", n, retries, timeout));
+        ops.push(format!("hworld {} {} {} 1000 86400000{}", n, retries, timeout, if rng.chance(1, 6) { " v6" } else { "" }));
     }
     let steps = if tier == "thorough" { rng.range(60, 120) } else { rng.range(40, 90) };
     let mut rid = 1u64;
@@ -1599,10 +1632,11 @@ pub fn gen_case(rng: &mut Rng, tier: &str, profile: &str, stats: &mut Stats) -> 
         match rng.below(100) {
             0..=13 => {
                 let x = rng.range(1, n);
-                let y = other(rng, x);
+                // (rarely a node is asked to talk to itself: refused at once, nothing on the wire)
+                let y = if rng.chance(1, 40) { x } else { other(rng, x) };
                 ops.push(format!("hreq {} {} {} {} {}", x, y, if rng.chance(3, 4) { "enr" } else { "raw" }, rid, rng.range(1, 4)));
                 rid += 1;
-                emitted += 1;
+                if y != x { emitted += 1; }
             }
             14..=55 => { ops.push("hdel next".into()); emitted += 1; }
             56..=58 => ops.push("hdel skip".into()),
